@@ -47,8 +47,7 @@ theorem C09_consumed_le {α : Type} (zl : Inflate) (p : Prog α) :
     intro inp e c
     simp only [runPure]
     have := ih (readFullResult inp e n).1 (readFullResult inp e n).2 e
-      { consumed := c.consumed + (if n ≤ inp.length then n else inp.length), steps := c.steps + 1,
-        alloc := c.alloc + readAlloc eager n (if n ≤ inp.length then n else inp.length) }
+      { c with consumed := c.consumed + (if n ≤ inp.length then n else inp.length), steps := c.steps + 1, alloc := c.alloc + readAlloc eager n (if n ≤ inp.length then n else inp.length), efail := c.efail + (if eager && !(decide (n ≤ inp.length)) then n else 0) }
     have hlen : (readFullResult inp e n).2.length + (if n ≤ inp.length then n else inp.length) ≤ inp.length := by
       unfold readFullResult
       by_cases h : n ≤ inp.length
